@@ -180,3 +180,32 @@ def _(c):
     p = pad.pkcs7(64); M = c.bytes('M', 3)
     blocks = drain(c.call(p.iterblocks, M), lambda: 0)
     c.ensure('canary', val.eq([b for blk, _ in blocks for b in blk], list(M) + [4] * 5))
+
+@obligation(P, 'iterblocks/loop-step', cls='I', cases={'bl': [8, 16, 64, 128]}, funcs=['crysp.padding.blockiterator.iterblocks'],
+            note='inductive step of the block loop from an ARBITRARY state (any number of bits already consumed, any total bit length, any earlier-calls offset): '
+                 'either exactly the current block is handed out with self.bitcnt == offset + consumed bits and the next block is read, or the loop is left with nothing yielded and nothing changed')
+def _(c):
+    from pyvc.sbytes import SBytesIO
+    bl = c.case('bl')
+    p = pad.pkcs7(8 * bl)
+    k = c.int('k', 0, 1 << 60)                  # blocks handed out so far in this call
+    bitcnt = k * (8 * bl)
+    bitlen = c.int('bitlen', 0, 1 << 70)
+    start = c.int('start', 0, 1 << 70)
+    p.bitcnt = start + bitcnt
+    Pi = c.bytes('Pi', bl); nxt = c.bytes('next', bl)
+    P = SBytesIO(nxt) if c.mode == 'sym' else __import__('io').BytesIO(bytes(nxt))
+    before = p.bitcnt
+    ys, loc = c.loop_body(pad.blockiterator.iterblocks, 0, {'self': p, 'm': None, 'kargs': {}, 'padding': True, 'mlen': None, 'bitlen': bitlen, 'P': P, 'Pi': Pi, 'bitcnt': bitcnt, 'nc': 0, 'start': start})
+    nc = bitcnt + 8 * bl
+    more = nc < bitlen
+    from pyvc.val import implies
+    if len(ys) == 1:
+        c.ensure('yield-only-if-more', more)
+        c.ensure('block', val.eq(ys[0], list(Pi)))
+        c.ensure('counters', land(val.eq(loc['bitcnt'], nc), val.eq(p.bitcnt, start + nc)))
+        c.ensure('next-block-read', val.eq(loc['Pi'], list(nxt)))
+    else:
+        c.ensure('no-yield', len(ys) == 0)
+        c.ensure('stop-only-if-last', lnot(more))
+        c.ensure('unchanged', land(val.eq(loc['bitcnt'], bitcnt), val.eq(p.bitcnt, before), val.eq(loc['Pi'], list(Pi))))
